@@ -70,6 +70,8 @@ Record bcase := mkcase {
   c_n : nat;
   c_start : Z;
   c_order : list nat;       (* observed: ids of p.conns in order (iteration order of the ReadySCs map) *)
+  c_addrs : list (Z * Z);   (* input: per SubConn id, key of its Address.Addr (may be shared) and of its ServerName *)
+  c_connaddr : list (Z * Z);(* observed: per tracked conn, the keys of the Address it recorded *)
   c_steps : list (xop * xobs)
 }.
 
@@ -140,8 +142,21 @@ Definition errpicker_steps (steps : list (xop * xobs)) : bool :=
                      | XAdv _ => true
                      end) steps.
 
+Definition pairZ_eqb (a b : Z * Z) : bool := (fst a =? fst b) && (snd a =? snd b).
+Definition opair_eqb (a : option (Z * Z)) (b : Z * Z) : bool :=
+  match a with Some x => pairZ_eqb x b | None => false end.
+Fixpoint all2b {A B} (f : A -> B -> bool) (l1 : list A) (l2 : list B) : bool :=
+  match l1, l2 with
+  | [], [] => true
+  | a :: r1, b :: r2 => f a b && all2b f r1 r2
+  | _, _ => false
+  end.
+Definition ready_of (c : bcase) : ready_set := combine (seq 0 (c_n c)) (c_addrs c).
+
 Definition bmodel_ok (c : bcase) : bool :=
   perm_ok (c_n c) (c_order c) &&
+  Nat.eqb (List.length (c_addrs c)) (c_n c) &&
+  all2b opair_eqb (conn_addrs (ready_of c) (c_order c)) (c_connaddr c) &&
   match build (c_start c) (c_order c) with
   | None => errpicker_steps (c_steps c)
   | Some s => model_steps s (repeat init_row (c_n c)) (c_steps c)
@@ -160,7 +175,7 @@ Record sst := mksst {
   s_samples : list (list Z);       (* observed latencies per conn *)
   s_fail : list Z;                 (* per conn: failing completions with td > 0 since its last acceptable completion *)
   s_lastc : list Z;                (* per conn: time of its last completion (0 = never), as p2c keeps it *)
-  s_lastp : list Z                 (* per conn: time of the last Pick that returned it (0 = never) *)
+  s_lastp : list Z                 (* per SubConn id: time of the last Pick that returned it (0 = never) *)
 }.
 
 Definition upd {A} (i : nat) (f : A -> A) (l : list A) : list A :=
@@ -198,8 +213,18 @@ Fixpoint first_healthy_pair (d : list (list Z)) (fuel : nat) (ps : list (Z * Z))
   | _, _ => None
   end.
 
-(* not returned by any Pick for more than a second, judged from the observed picks (not from p2c's own stamps) *)
-Definition stale_obs (t : sst) (i : nat) : bool := s_now t - nth i (s_lastp t) 0 >? 1000000000.
+(* the SubConn with this id was not returned by any Pick for more than a second, judged from the observed
+   picks (not from p2c's own stamps, not from positions in p.conns) *)
+Definition stale_obs (t : sst) (id : nat) : bool := s_now t - nth id (s_lastp t) 0 >? 1000000000.
+
+(* the pair handed to choose: the first all-healthy one of the three drawn pairs, else the third *)
+Fixpoint final_pair (d : list (list Z)) (fuel : nat) (ps : list (Z * Z)) (cur : option (Z * Z)) : option (Z * Z) :=
+  match fuel, ps with
+  | S f, (a, b0) :: r =>
+      let b := if b0 >=? a then b0 + 1 else b0 in
+      if healthy_obs d a && healthy_obs d b then Some (a, b) else final_pair d f r (Some (a, b))
+  | _, _ => cur
+  end.
 
 Definition pick_clauses (n : nat) (order : list nat) (t : sst) (draws : list Z) (o : xobs) : bool :=
   match n with
@@ -215,10 +240,24 @@ Definition pick_clauses (n : nat) (order : list nat) (t : sst) (draws : list Z) 
          | None => true
          end
        else true) &&
-      (* 2 conns: the one not picked for more than a second is picked now (if the other is not stale too) *)
+      (* >= 3 conns: of the two connections handed to choose, the one not picked for more than a second is
+         picked now (if the other is not stale too) -- by SubConn identity *)
+      (if Nat.leb 3 n && Nat.leb 3 (List.length (pairs draws)) then
+         match final_pair (s_prev t) 3 (pairs draws) None with
+         | Some (a, b) =>
+             if (0 <=? a) && (a <? Z.of_nat n) && (0 <=? b) && (b <? Z.of_nat n) then
+               let ia := nth (Z.to_nat a) order n in
+               let ib := nth (Z.to_nat b) order n in
+               (if stale_obs t ia && negb (stale_obs t ib) then o_id o =? Z.of_nat ia else true) &&
+               (if stale_obs t ib && negb (stale_obs t ia) then o_id o =? Z.of_nat ib else true)
+             else true
+         | None => true
+         end
+       else true) &&
+      (* 2 ready SubConns: the one not picked for more than a second is picked now (if the other is not stale too) *)
       (if Nat.eqb n 2 then
-         (if stale_obs t 0 && negb (stale_obs t 1) then o_idx o =? 0 else true) &&
-         (if stale_obs t 1 && negb (stale_obs t 0) then o_idx o =? 1 else true)
+         (if stale_obs t 0 && negb (stale_obs t 1) then o_id o =? 0 else true) &&
+         (if stale_obs t 1 && negb (stale_obs t 0) then o_id o =? 1 else true)
        else true)
   end.
 
@@ -239,7 +278,7 @@ Fixpoint spec_steps (n : nat) (order : list nat) (t : sst) (steps : list (xop * 
           let i := Z.to_nat (o_idx o) in
           let dump := apply_delta (s_prev t) (o_conns o) in
           let t' := mksst (s_now t) dump (s_L t ++ [mkentry i 0]) (s_tok t ++ [(i, s_now t)])
-                          (s_samples t) (s_fail t) (s_lastc t) (upd i (fun _ => s_now t) (s_lastp t)) in
+                          (s_samples t) (s_fail t) (s_lastc t) (upd (Z.to_nat (o_id o)) (fun _ => s_now t) (s_lastp t)) in
           dump_clauses n t' dump && spec_steps n order t' r
       end
   | (XDone k code, o) :: r =>
@@ -265,6 +304,8 @@ Fixpoint spec_steps (n : nat) (order : list nat) (t : sst) (steps : list (xop * 
 
 Definition bspec_ok (c : bcase) : bool :=
   let n := c_n c in
+  (* every ready SubConn -- whatever Address it carries, shared or not -- is tracked by the picker, once *)
+  perm_ok n (c_order c) &&
   spec_steps n (c_order c)
     (mksst (c_start c) (repeat init_row n) [] [] (repeat [] n) (repeat 0 n) (repeat 0 n) (repeat 0 n))
     (c_steps c).
